@@ -72,6 +72,8 @@ def check_data(it, data, here, labels, consts):
 def label_table_problems(ex):
     """the reported label table must give exactly the offset of the first byte after each label"""
     out = []
+    if ex.labels_reported is None:
+        return out          # this build did not ask for the label table
     for name, off in ex.labels_true.items():
         rep = ex.labels_reported.get(name)
         if rep != off:
